@@ -455,7 +455,7 @@ func splitConj(t string) []string {
 func kindAllowed(prop, kind string) bool {
 	switch {
 	case strings.HasPrefix(kind, "block."):
-		return prop == "C04" || prop == "C15" || prop == "C17" || prop == "C16"
+		return prop == "C04" || prop == "C14" || prop == "C15" || prop == "C17" || prop == "C16"
 	case strings.HasPrefix(kind, "guard."):
 		return prop == "C20"
 	}
